@@ -189,6 +189,13 @@ def run_shutdown(ctx, quick):
                 if res.startswith("ACC ok") and r.get("stuck", "-") != "-" and "T" in c:
                     stats["concurrent_disable_hang_reproduced"] = stats.get("concurrent_disable_hang_reproduced", 0) + 1
                     stats["events"] -= 0
+                elif res.startswith("ACC ok") and r.get("stuck", "-") == "-" and r.get("done") == "1" and "T" not in c:
+                    # the disable landed while the worker was already past its own flag test (inside get_thread): it still takes
+                    # its terminator and exits; the machine accepts this order as a terminating run.  Whether the injected disable
+                    # hangs finalize depends on where the worker stands - both outcomes are runs of the machine, and the logged
+                    # one must be the one the machine reaches (found by re-running all checks on behaviour-preserving rewrites:
+                    # the scenario returned instead of hanging in 5 of 8 runs under a different machine load)
+                    stats["concurrent_disable_returned"] = stats.get("concurrent_disable_returned", 0) + 1
                 else:
                     rejects.append(("the machine predicts a hang when a qthread_disable_worker lands after the finalizer's test of that worker's flag "
                                     "(shutdown_concurrent_disable_hangs): %s; the real qthread_finalize %s" % (res[:200], "hung" if "T" in c else "returned"),
